@@ -14,6 +14,29 @@ CHECKS = {
              'the run fails if a named class is not reached. Held on N observed events, not a proof.',
         note='Trusted: Python big-int arithmetic, oracle/bls.py (self-tested), the text protocol of drivers/opdrv.cpp. Inputs not executed are not covered.',
         ref='DESIGN.md section 3 C02'),
+    'C04': dict(
+        technique='reference-model monitor (schoolbook tower over Python integers) over recorded Fq2/Fq6/Fq12 operation events, special-shape operands, all Frobenius indices, differential across builds, ASan/UBSan',
+        text='Every public Fq2/Fq6/Fq12 operation is executed by the real library and judged against the defining polynomial arithmetic Fq[u]/(u^2+1), Fq2[v]/(v^3-(u+1)), '
+             'Fq6[w]/(w^2-v) written from the definition (schoolbook, Frobenius by substituting the generic power w^(q^k)); unit-vector products at every coefficient '
+             'position, subfield/sparse/zero shapes, Frobenius powers 0..13 and >2^31, sparse c1/c01/c014 shapes with zero members, map_to_cyclotomic against the generic power, '
+             'cyclotomic squaring on subgroup members produced by the model itself. Held on N observed events.',
+        note='Trusted: Python big-int arithmetic, oracle/bls.py (tower vs flattened representation cross-checked every run). Not executed inputs are not covered.',
+        ref='DESIGN.md section 3 C04'),
+    'C05': dict(
+        technique='reference-model monitor (affine chord-and-tangent law) over recorded group-operation events, exceptional-case table x representative kinds, differential across builds, ASan/UBSan',
+        text='add/add_mixed/double/negate/equal/from_affine/from_projective (C API entry points and C++ members) are driven with the exceptional table '
+             '{O, P, -P, P in another representative, Q} x {z=1, z=-1, random z, z=0 with junk x,y} x {projective, affine second operand} on subgroup points, '
+             'arbitrary curve points and points with a zero coordinate; each output is decoded (z=0 => identity) and compared as a point with the reference law. Held on N events.',
+        note='Trusted: Python big-int arithmetic, oracle/bls.py curve code (self-tested: generators on curve, order r). Not executed inputs are not covered.',
+        ref='DESIGN.md section 3 C05'),
+    'C06': dict(
+        technique='reference-model monitor over recorded (routine, scalar, base, result) events and over the recoding/decomposition outputs; boundary scalars 2^bits-i, k>=r, k>=2r; differential across builds, ASan/UBSan',
+        text='Every scalar-multiplication entry point (C API multiply/multiply_affine, endomorphism and Frobenius methods, multiply_wnaf for windows 2-6 and widths 64/128/256/512, '
+             'precomputed-table multiplication, double-and-add, cofactor-width overloads, explicit (c0,c1) and base-|x| digit entry points) is compared with [k]P computed by reference '
+             'additions; WnafScalar::from_bigint digits must sum to k exactly with odd digits below 2^w inside a guarded buffer; PowersOfX::decompose must recombine to k or k-r. '
+             'Scalars include the 33 values below every power-of-two width, multiples of r, lambda, multiples of |x|^i +-1. Held on N events.',
+        note='Trusted: Python big-int arithmetic, oracle/bls.py curve code. decompose_lambda is static: observed only through results until hook H1 is added.',
+        ref='DESIGN.md section 3 C06'),
 }
 
 NOT_YET = 'check not built yet in this round (planned, see DESIGN.md section 3)'
